@@ -4,6 +4,9 @@ C15: repo.json as an insertion ordered dictionary (`setPkg`, `erasePkg`) and how
 -/
 namespace Share
 
+/-- the code with all four fixes (literal, so that `simp only` reduces its projections) -/
+local notation "fx" => (Cfg.mk true true true true)
+
 def keys (l : List (Bid × Nat)) : List Bid := l.map (·.1)
 
 theorem keys_setPkg_mem (l : List (Bid × Nat)) (b : Bid) (sz : Nat) (k : Bid) :
@@ -171,12 +174,13 @@ theorem sumSizes_setPkg_new (l : List (Bid × Nat)) (b : Bid) (sz : Nat) (h : b 
       omega
 
 /-- every way in which one segment changes repo.json -/
-theorem stepPc_repo (H : Nat → Nat) (ff : Bool) (prog : Prog) (exO shO : Bool) (g : Store) (pc : Pc) :
-    (stepPc H ff prog exO shO g pc).1.repo = g.repo
-    ∨ (pc = .iAddLock ∧ exO = false ∧ shO = false ∧ ∃ l, g.repo = .valid l ∧
-        (stepPc H ff prog exO shO g pc).1.repo = (if ff then .valid (setPkg l (opBid prog) (opSize prog)) else .torn))
+theorem stepPc_repo (H : Nat → Nat) (cfg : Cfg) (prog : Prog) (exO shO : Bool) (g : Store) (pc : Pc) :
+    (stepPc H cfg prog exO shO g pc).1.repo = g.repo
+    ∨ (pc = .iAddLock ∧ exO = false ∧ shO = false ∧ ∃ l, readRepo cfg g.repo = some l ∧
+        (stepPc H cfg prog exO shO g pc).1.repo = (if cfg.ff then .valid (setPkg l (opBid prog) (opSize prog)) else .torn))
     ∨ (pc = .iAddCreate ∧ g.repo = .absent)
     ∨ (pc = .iAddCreateLock)
+    ∨ (pc = .iAddOpen ∧ g.repo = .absent ∧ cfg.emptyOk = true ∧ (stepPc H cfg prog exO shO g pc).1.repo = .torn)
     ∨ (∃ l t f, pc = .iAddClose (some l) t f)
     ∨ (∃ l r, pc = .gClose (some l) r)
     ∨ (∃ rm plan t d te, pc = .gMove rm plan t d te) := by
@@ -184,13 +188,12 @@ theorem stepPc_repo (H : Nat → Nat) (ff : Bool) (prog : Prog) (exO shO : Bool)
   case iAddLock =>
     unfold stepPc; simp only
     cases hex : exO <;> cases hsh : shO <;> simp only [Bool.or_false, Bool.or_true, Bool.false_eq_true, if_false, if_true]
-    · cases hr : g.repo with
-      | valid l =>
+    · cases hr : readRepo cfg g.repo with
+      | some l =>
         right; left
         refine ⟨by simp, by simp, by simp, l, by simp, ?_⟩
-        cases ff <;> simp
-      | absent => left; simp [hr]
-      | torn => left; simp [hr]
+        cases cfg.ff <;> simp
+      | none => left; simp
     all_goals first | (left; rfl) | (left; trivial) | (left; simp)
   case iAddCreate =>
     unfold stepPc; simp only
@@ -199,9 +202,19 @@ theorem stepPc_repo (H : Nat → Nat) (ff : Bool) (prog : Prog) (exO shO : Bool)
     | valid l => left; simp [hr]
     | torn => left; simp [hr]
   case iAddCreateLock => right; right; right; left; rfl
+  case iAddOpen =>
+    unfold stepPc; simp only
+    cases hr : g.repo with
+    | absent =>
+      simp only
+      cases he : cfg.emptyOk with
+      | true => right; right; right; right; left; exact ⟨by simp, by simp, by simp, by simp⟩
+      | false => left; simp [hr]
+    | valid l => left; simp [hr]
+    | torn => left; simp [hr]
   case iAddClose pend t f =>
     cases pend with
-    | some l => right; right; right; right; left; exact ⟨l, t, f, rfl⟩
+    | some l => right; right; right; right; right; left; exact ⟨l, t, f, rfl⟩
     | none =>
       left
       unfold stepPc; simp only
@@ -209,9 +222,9 @@ theorem stepPc_repo (H : Nat → Nat) (ff : Bool) (prog : Prog) (exO shO : Bool)
       all_goals first | rfl | simp
   case gClose pend r =>
     cases pend with
-    | some l => right; right; right; right; right; left; exact ⟨l, r, rfl⟩
+    | some l => right; right; right; right; right; right; left; exact ⟨l, r, rfl⟩
     | none => left; unfold stepPc; simp
-  case gMove rm plan t d te => right; right; right; right; right; right; exact ⟨rm, plan, t, d, te, rfl⟩
+  case gMove rm plan t d te => right; right; right; right; right; right; right; exact ⟨rm, plan, t, d, te, rfl⟩
   case uLockPkg =>
     left
     unfold stepPc; simp only
@@ -225,15 +238,15 @@ theorem stepPc_repo (H : Nat → Nat) (ff : Bool) (prog : Prog) (exO shO : Bool)
   all_goals (repeat' split)
   all_goals first | rfl | simp
 
-/-- failures caused by concurrency / an empty store that the patched code must not show -/
-def bad3 : Err → Bool
-  | .fileNotFound | .jsonDecode | .corruptMeta => true
+/-- failures that are caused by another project working on the store or by a store that is still empty -/
+def Err.spurious : Err → Bool
+  | .fileNotFound | .jsonDecode | .corruptMeta | .renameENOENT => true
   | _ => false
 
-def Res.okRes (r : Res) : Prop := ∀ e, r = .err e → bad3 e = false
+def Res.okRes (r : Res) : Prop := ∀ e, r = .err e → e.spurious = false
 
-/-- patched code (`ff = true`): nothing is pending after an unlock, the "x" creation path is not taken, no
-spurious error is on its way -/
+/-- fixed code: nothing is pending after an unlock, the "x" creation path is not taken, no spurious error is on
+its way -/
 def PcFF : Pc → Prop
   | .uClosePkg pend r => pend = none ∧ r.okRes
   | .iAddClose pend _ failed => pend = none ∧ failed = false
@@ -242,13 +255,13 @@ def PcFF : Pc → Prop
   | .done r => r.okRes
   | _ => True
 
-theorem pcFF_afterShare (prog : Prog) (g : Store) (r : Res) (hr : r.okRes) : PcFF (afterShare prog g r).2 := by
+theorem pcFF_afterShare {cfg : Cfg} (prog : Prog) (g : Store) (r : Res) (hr : r.okRes) : PcFF (afterShare cfg prog g r).2 := by
   unfold afterShare
   split
   · exact hr
   · split <;> (try split) <;> (try split) <;> first | trivial | exact hr | (intro e he; cases he)
 
-theorem pcFF_finishGc (prog : Prog) (g : Store) (r : Res) (hr : r.okRes) : PcFF (finishGc prog g r).2 := by
+theorem pcFF_finishGc {cfg : Cfg} (prog : Prog) (g : Store) (r : Res) (hr : r.okRes) : PcFF (finishGc cfg prog g r).2 := by
   unfold finishGc
   split
   · split
@@ -256,7 +269,7 @@ theorem pcFF_finishGc (prog : Prog) (g : Store) (r : Res) (hr : r.okRes) : PcFF 
     · exact pcFF_afterShare _ _ _ (by intro e he; cases he)
   · exact hr
 
-theorem pcFF_gcStart (prog : Prog) (g : Store) : PcFF (gcStart prog g).2 := by
+theorem pcFF_gcStart {cfg : Cfg} (prog : Prog) (g : Store) : PcFF (gcStart cfg prog g).2 := by
   unfold gcStart
   split
   · exact pcFF_finishGc _ _ _ (by intro e he; cases he)
@@ -282,12 +295,29 @@ theorem pcFF_gcNext (prog : Prog) (g : Store) (rm todo : List (Bid × Nat)) (c :
   · exact pcFF_gcPlan ..
   · trivial
 
+theorem checkUnused_error (g : Store) (k : Bid) (e : Err) :
+    ∀ (us : List Ws), checkUnused g k us = .error e → e = .inspect := by
+  intro us
+  induction us with
+  | nil => intro hh; simp [checkUnused] at hh
+  | cons u r ih =>
+    intro hh
+    unfold checkUnused at hh
+    split at hh
+    · exact ih hh
+    · split at hh
+      · cases hh; rfl
+      · split at hh
+        · cases hh
+        · exact ih hh
+
 theorem stepPc_pcFF (H : Nat → Nat) (prog : Prog) (exO shO : Bool) (g : Store) (pc : Pc)
-    (h : PcFF pc) (hrepo : g.repo ≠ .absent)
-    (hlock : exO = false → shO = false → (pc = .iAddLock ∨ pc = .gLock) → ∃ l, g.repo = .valid l)
+    (h : PcFF pc) (hna : pc = .gOpen → g.repo ≠ .absent)
+    (hlock : exO = false → shO = false → (pc = .iAddLock ∨ pc = .gLock) → ∃ l, readRepo fx g.repo = some l)
     (hinfo : ∀ b d, g.final b = some d → ∃ m, d.info = some (.valid m))
-    (hscan : ∀ rm k sz rest cands total, pc = .gScanLock rm k sz rest cands total → g.final k ≠ none) :
-    PcFF (stepPc H true prog exO shO g pc).2 := by
+    (hscan : ∀ rm k sz rest cands total, pc = .gScanLock rm k sz rest cands total → g.final k ≠ none)
+    (hmv : ∀ rm c rest t d te, pc = .gMove rm (c :: rest) t d te → g.final c.bid ≠ none) :
+    PcFF (stepPc H fx prog exO shO g pc).2 := by
   cases pc
   case done r => simpa [stepPc] using h
   case start =>
@@ -340,10 +370,7 @@ theorem stepPc_pcFF (H : Nat → Nat) (prog : Prog) (exO shO : Bool) (g : Store)
     · trivial
   case iAddOpen =>
     unfold stepPc; simp only
-    cases hr : g.repo with
-    | absent => exact absurd hr hrepo
-    | torn => trivial
-    | valid l => trivial
+    cases hr : g.repo <;> trivial
   case iAddLock =>
     unfold stepPc; simp only
     cases hex : exO <;> cases hsh : shO <;> simp only [Bool.or_false, Bool.or_true, Bool.false_eq_true, if_false, if_true]
@@ -365,7 +392,7 @@ theorem stepPc_pcFF (H : Nat → Nat) (prog : Prog) (exO shO : Bool) (g : Store)
   case gOpen =>
     unfold stepPc; simp only
     cases hr : g.repo with
-    | absent => exact absurd hr hrepo
+    | absent => exact absurd hr (hna rfl)
     | torn => trivial
     | valid l => trivial
   case gLock =>
@@ -394,22 +421,7 @@ theorem stepPc_pcFF (H : Nat → Nat) (prog : Prog) (exO shO : Bool) (g : Store)
         refine ⟨rfl, ?_⟩
         intro e' he'
         cases he'
-        -- checkUnused only fails with `inspect`
-        have : ∀ (us : List Ws), checkUnused g k us = .error e → e = .inspect := by
-          intro us
-          induction us with
-          | nil => intro hh; simp [checkUnused] at hh
-          | cons u r ih =>
-            intro hh
-            unfold checkUnused at hh
-            split at hh
-            · exact ih hh
-            · split at hh
-              · cases hh; rfl
-              · split at hh
-                · cases hh
-                · exact ih hh
-        rw [this _ he]; rfl
+        rw [checkUnused_error g k e _ he]; rfl
       · exact pcFF_gcNext ..
   case gMove rm plan t d te =>
     unfold stepPc; simp only
@@ -425,14 +437,7 @@ theorem stepPc_pcFF (H : Nat → Nat) (prog : Prog) (exO shO : Bool) (g : Store)
     | cons c rest =>
       simp only
       cases hf : g.final c.bid with
-      | none =>
-        simp only
-        split
-        · exact ⟨rfl, by intro e he; cases he; rfl⟩
-        · rename_i hd
-          have : d = false := by simpa using hd
-          subst this
-          exact ⟨rfl, by intro e he; cases he; rfl⟩
+      | none => exact absurd hf (hmv rm c rest t d te rfl)
       | some dd =>
         simp only
         cases rest with
@@ -490,20 +495,19 @@ theorem gcWf_gcNext (prog : Prog) (g : Store) (rm todo : List (Bid × Nat)) (can
   · exact gcWf_gcPlan prog g rm cands t h1 (by simpa [keys] using h2) h4
   · exact ⟨h1, h2, h3, h4⟩
 
-theorem stepPc_gcWf (H : Nat → Nat) (ff : Bool) (prog : Prog) (exO shO : Bool) (g : Store) (pc : Pc)
-    (h : GcWf pc) (hl : ∀ l, g.repo = .valid l → (keys l).Nodup) :
-    GcWf (stepPc H ff prog exO shO g pc).2 := by
+theorem stepPc_gcWf (H : Nat → Nat) (cfg : Cfg) (prog : Prog) (exO shO : Bool) (g : Store) (pc : Pc)
+    (h : GcWf pc) (hl : ∀ l, readRepo cfg g.repo = some l → (keys l).Nodup) :
+    GcWf (stepPc H cfg prog exO shO g pc).2 := by
   cases pc
   case gLock =>
     unfold stepPc; simp only
     split
     · trivial
-    · cases hr : g.repo with
-      | valid l =>
+    · cases hr : readRepo cfg g.repo with
+      | some l =>
         simp only
         exact gcWf_gcNext prog g l l [] 0 (hl l hr) (by simpa using hl l hr) (fun x hx => hx) (by intro c hc; cases hc)
-      | absent => trivial
-      | torn => trivial
+      | none => trivial
   case gScanOpen rm todo cands total =>
     obtain ⟨h1, h2, h3, h4⟩ := h
     unfold stepPc; simp only
@@ -565,7 +569,7 @@ theorem stepPc_gcWf (H : Nat → Nat) (ff : Bool) (prog : Prog) (exO shO : Bool)
           refine (mem_keys_erasePkg rm c.bid c'.bid h1).mpr ⟨?_, h3 c' (List.mem_cons_of_mem _ hc')⟩
           intro he
           exact hn.1 (List.mem_map.mpr ⟨c', hc', he⟩)
-  all_goals exact gcWf_of_notEX (stepPc_notEX H ff prog exO shO g _ rfl (by intro hh; cases hh))
+  all_goals exact gcWf_of_notEX (stepPc_notEX H cfg prog exO shO g _ rfl (by intro hh; cases hh))
 
 def Pc.rmeta : Pc → Option (List (Bid × Nat))
   | .gScanOpen rm _ _ _ => some rm
@@ -591,13 +595,13 @@ theorem Pc.holdsEX_of_rmeta {pc : Pc} {rm : List (Bid × Nat)} (h : pc.rmeta = s
 theorem Pc.dirty_of_notEX {pc : Pc} (h : pc.holdsEX = false) : pc.dirty = false := by
   cases pc <;> first | rfl | (simp [Pc.holdsEX] at h)
 
-@[simp] theorem inWindow_afterShare (prog : Prog) (g : Store) (r : Res) : (afterShare prog g r).2.inWindow = false := by
-  rcases afterShare_pc prog g r with ⟨_, h⟩ | ⟨_, h⟩ | ⟨_, h⟩ <;> rw [h] <;> rfl
+@[simp] theorem inWindow_afterShare {cfg : Cfg} (prog : Prog) (g : Store) (r : Res) : (afterShare cfg prog g r).2.inWindow = false := by
+  rcases afterShare_pc (cfg := cfg) prog g r with ⟨_, h⟩ | ⟨_, h⟩ | ⟨_, h⟩ | h <;> rw [h] <;> rfl
 
-@[simp] theorem inWindow_finishGc (prog : Prog) (g : Store) (r : Res) : (finishGc prog g r).2.inWindow = false := by
-  rcases finishGc_pc prog g r with ⟨_, h⟩ | ⟨_, h⟩ | ⟨_, h⟩ <;> rw [h] <;> rfl
+@[simp] theorem inWindow_finishGc {cfg : Cfg} (prog : Prog) (g : Store) (r : Res) : (finishGc cfg prog g r).2.inWindow = false := by
+  rcases finishGc_pc (cfg := cfg) prog g r with ⟨_, h⟩ | ⟨_, h⟩ | ⟨_, h⟩ | h <;> rw [h] <;> rfl
 
-@[simp] theorem inWindow_gcStart (prog : Prog) (g : Store) : (gcStart prog g).2.inWindow = false := by
+@[simp] theorem inWindow_gcStart {cfg : Cfg} (prog : Prog) (g : Store) : (gcStart cfg prog g).2.inWindow = false := by
   unfold gcStart
   split
   · simp
@@ -619,8 +623,8 @@ theorem Pc.dirty_of_notEX {pc : Pc} (h : pc.holdsEX = false) : pc.dirty = false 
   · rfl
 
 /-- a process enters the window only by publishing -/
-theorem stepPc_inWindow_enter (H : Nat → Nat) (ff : Bool) (prog : Prog) (exO shO : Bool) (g : Store) (pc : Pc)
-    (h : (stepPc H ff prog exO shO g pc).2.inWindow = true) (hpc : pc.inWindow = false) :
+theorem stepPc_inWindow_enter (H : Nat → Nat) (cfg : Cfg) (prog : Prog) (exO shO : Bool) (g : Store) (pc : Pc)
+    (h : (stepPc H cfg prog exO shO g pc).2.inWindow = true) (hpc : pc.inWindow = false) :
     (∃ tmp, pc = .iRename tmp) ∧ g.final (opBid prog) = none := by
   cases pc
   case iRename tmp =>
@@ -640,15 +644,15 @@ theorem stepPc_inWindow_enter (H : Nat → Nat) (ff : Bool) (prog : Prog) (exO s
     | simp [Pc.inWindow]
 
 /-- a process leaves the window only by recording its package -/
-theorem stepPc_inWindow_stay (H : Nat → Nat) (ff : Bool) (prog : Prog) (exO shO : Bool) (g : Store) (pc : Pc)
+theorem stepPc_inWindow_stay (H : Nat → Nat) (cfg : Cfg) (prog : Prog) (exO shO : Bool) (g : Store) (pc : Pc)
     (hpc : pc.inWindow = true) :
-    (stepPc H ff prog exO shO g pc).2.inWindow = true ∨
+    (stepPc H cfg prog exO shO g pc).2.inWindow = true ∨
       ((pc = .iAddLock ∨ pc = .iAddCreateLock) ∧ exO = false ∧ shO = false) := by
   cases pc
   case iAddOpen =>
     left
     unfold stepPc; simp only
-    cases hr : g.repo <;> rfl
+    cases hr : g.repo <;> simp only <;> (try split) <;> rfl
   case iAddCreate =>
     left
     unfold stepPc; simp only
@@ -679,10 +683,10 @@ theorem rmeta_gcNext (prog : Prog) (g : Store) (rm todo : List (Bid × Nat)) (c 
   · simp [Pc.rmeta] at h; exact ⟨h.symm, rfl⟩
 
 /-- scanning keeps the in-memory copy of repo.json and writes nothing -/
-theorem stepPc_scan_rmeta (H : Nat → Nat) (ff : Bool) (prog : Prog) (exO shO : Bool) (g : Store) (pc : Pc)
+theorem stepPc_scan_rmeta (H : Nat → Nat) (cfg : Cfg) (prog : Prog) (exO shO : Bool) (g : Store) (pc : Pc)
     (rm : List (Bid × Nat)) (hrm : pc.rmeta = some rm) (hmove : ∀ rm plan t d te, pc ≠ .gMove rm plan t d te)
-    (rm' : List (Bid × Nat)) (h : (stepPc H ff prog exO shO g pc).2.rmeta = some rm') :
-    rm' = rm ∧ (stepPc H ff prog exO shO g pc).2.dirty = false := by
+    (rm' : List (Bid × Nat)) (h : (stepPc H cfg prog exO shO g pc).2.rmeta = some rm') :
+    rm' = rm ∧ (stepPc H cfg prog exO shO g pc).2.dirty = false := by
   cases pc
   case gScanOpen rm0 todo cands total =>
     simp [Pc.rmeta] at hrm; subst hrm
@@ -742,7 +746,7 @@ theorem finalQuiet_rev {g g' : Store} (h : FinalQuiet g g') {b : Bid} {d' : PkgD
 theorem stepPc_finalQuiet (H : Nat → Nat) (prog : Prog) (exO shO : Bool) (g : Store) (pc : Pc)
     (hff : PcFF pc) (hren : ∀ tmp, pc = .iRename tmp → g.final (opBid prog) ≠ none)
     (hmove : ∀ rm plan t d te, pc ≠ .gMove rm plan t d te) :
-    FinalQuiet g (stepPc H true prog exO shO g pc).1 := by
+    FinalQuiet g (stepPc H fx prog exO shO g pc).1 := by
   intro b
   by_cases hu : pc = .uLockPkg
   · subst hu
@@ -768,7 +772,7 @@ theorem stepPc_finalQuiet (H : Nat → Nat) (prog : Prog) (exO shO : Bool) (g : 
             split
             · simp [touch_final, e]
             · simp [setMeta_final, e]
-  · rcases stepPc_final H true prog exO shO g pc b with h | ⟨tmp, hp, hb, hn, _⟩ | ⟨rm, c, rest, t, d, te, hp, _⟩ |
+  · rcases stepPc_final H fx prog exO shO g pc b with h | ⟨tmp, hp, hb, hn, _⟩ | ⟨rm, c, rest, t, d, te, hp, _⟩ |
         ⟨d, info, mt, _, _, _, hok⟩
     · left; exact h
     · exfalso; exact hren tmp hp (by rw [← hb]; exact hn)
@@ -783,13 +787,13 @@ def TmpOk (prog : Prog) : Pc → Prop
   | .iRename tmp => ∃ m, tmp.info = some (.valid m) ∧ m.size = opSize prog
   | _ => True
 
-theorem tmpOk_afterShare (prog : Prog) (g : Store) (r : Res) : TmpOk prog (afterShare prog g r).2 := by
-  rcases afterShare_pc prog g r with ⟨_, h⟩ | ⟨_, h⟩ | ⟨_, h⟩ <;> rw [h] <;> trivial
+theorem tmpOk_afterShare {cfg : Cfg} (prog : Prog) (g : Store) (r : Res) : TmpOk prog (afterShare cfg prog g r).2 := by
+  rcases afterShare_pc (cfg := cfg) prog g r with ⟨_, h⟩ | ⟨_, h⟩ | ⟨_, h⟩ | h <;> rw [h] <;> trivial
 
-theorem tmpOk_finishGc (prog : Prog) (g : Store) (r : Res) : TmpOk prog (finishGc prog g r).2 := by
-  rcases finishGc_pc prog g r with ⟨_, h⟩ | ⟨_, h⟩ | ⟨_, h⟩ <;> rw [h] <;> trivial
+theorem tmpOk_finishGc {cfg : Cfg} (prog : Prog) (g : Store) (r : Res) : TmpOk prog (finishGc cfg prog g r).2 := by
+  rcases finishGc_pc (cfg := cfg) prog g r with ⟨_, h⟩ | ⟨_, h⟩ | ⟨_, h⟩ | h <;> rw [h] <;> trivial
 
-theorem tmpOk_gcStart (prog : Prog) (g : Store) : TmpOk prog (gcStart prog g).2 := by
+theorem tmpOk_gcStart {cfg : Cfg} (prog : Prog) (g : Store) : TmpOk prog (gcStart cfg prog g).2 := by
   unfold gcStart
   split
   · exact tmpOk_finishGc ..
@@ -810,8 +814,8 @@ theorem tmpOk_gcNext (prog : Prog) (g : Store) (rm todo : List (Bid × Nat)) (c 
   · exact tmpOk_gcPlan ..
   · trivial
 
-theorem stepPc_tmpOk (H : Nat → Nat) (ff : Bool) (prog : Prog) (exO shO : Bool) (g : Store) (pc : Pc) :
-    TmpOk prog (stepPc H ff prog exO shO g pc).2 := by
+theorem stepPc_tmpOk (H : Nat → Nat) (cfg : Cfg) (prog : Prog) (exO shO : Bool) (g : Store) (pc : Pc) :
+    TmpOk prog (stepPc H cfg prog exO shO g pc).2 := by
   cases pc
   case iVerify =>
     unfold stepPc; simp only
